@@ -22,4 +22,5 @@ func init() {
 	register("C14", "fault_enumeration", C14)
 	register("C18", "exploration", C18)
 	register("C06", "exploration", C06)
+	register("C17", "exploration", C17)
 }
